@@ -510,3 +510,55 @@ def fs8(P, C, floor=7):
                     ok = len(names) == 1 and names[0][1] is not None and got == names[0][1]
                     C.ob("FS-8", label, "fits_write_pix:%s" % txt.replace(" ", ""), ok, f.loc(i),
                          "extension named with %s holds %s" % (f.var_name(names[0][1]) if names and names[0][1] is not None else "?", txt))
+
+
+def fs9(P, C):
+    """FS-9: cards whose name comes from data are appended, never written through cfitsio's search-and-replace."""
+    C.rule("FS-9", "the writer appends every card whose keyword is not a literal of its own (auxiliary keys, names formatted with an index) with "
+           "fits_write_key; fits_update_key — which first searches the header with cfitsio's own name matching (case folding, the HIERARCH "
+           "prefix stripped or matched as a family, wildcard characters) and overwrites what it finds — is used only with literal keyword "
+           "names: an auxiliary key must never replace another card", floor=2)
+    gs = [g for g in P.fns("write_fits_core") if g.unit == "driver"]
+    if not gs:
+        raise core.AnalysisBroken("FS-9: write_fits_core not found")
+    f = gs[0]
+    n = 0
+    for i, cal in f.calls():
+        if not cal:
+            continue
+        m = f.call_macro(i) or cal["name"]
+        if m not in ("fits_update_key", "fits_update_key_str", "fits_update_key_longstr", "fits_modify_key_str", "ffuky", "ffukys", "ffukls", "ffmkys",
+                     "fits_write_key", "fits_write_key_str", "fits_write_key_longstr", "ffpky", "ffpkys", "ffpkls"):
+            continue
+        a = f.args(i)
+        name_arg = next((x for x in a if "char" in f.nodes[x].get("t", "") and f.nodes[x].get("t", "").count("*") >= 1), None)
+        # (fitsfile*, int datatype, const char* keyname, ...) / the _str forms (fitsfile*, const char* keyname, ...)
+        name_arg = a[2] if m in ("fits_update_key", "fits_write_key", "ffuky", "ffpky") else a[1]
+        s_ = f.strip(name_arg)
+        literal = f.k(s_) == "StringLiteral"
+        if f.k(s_) == "DeclRefExpr":
+            # a local const char array initialised with a literal
+            vid = f.nodes[s_]["decl"].get("id")
+            for x in f.walk():
+                if f.k(x) == "DeclStmt":
+                    for d in f.nodes[x]["decls"]:
+                        if d.get("id") == vid and d.get("init", -1) >= 0 and f.k(f.strip(d["init"])) == "StringLiteral" and d.get("type", "").startswith("const char"):
+                            literal = True
+        if f.k(s_) == "UnaryOperator" and f.nodes[s_].get("op") == "&":
+            t = f.strip(f.nodes[s_]["ch"][0])
+            if f.k(t) == "DeclRefExpr":
+                vid = f.nodes[t]["decl"].get("id")
+                for x in f.walk():
+                    if f.k(x) == "DeclStmt":
+                        for d in f.nodes[x]["decls"]:
+                            if d.get("id") == vid and d.get("init", -1) >= 0 and f.k(f.strip(d["init"])) == "StringLiteral" and d.get("type", "").startswith("const char"):
+                                literal = True
+        updates = m in ("fits_update_key", "fits_update_key_str", "fits_update_key_longstr", "fits_modify_key_str", "ffuky", "ffukys", "ffukls", "ffmkys")
+        n += 1
+        ok = literal or not updates
+        C.ob("FS-9", "write_fits_core", "%s(%s)@%d" % (m, f.render(name_arg)[:30], f.nodes[i]["loc"][0]), ok, f.loc(i),
+             ("%s with %s" % (m, "a literal keyword" if literal else "a keyword taken from data: appended")) if ok else
+             "%s searches the header for a card matching %s by cfitsio's rules and overwrites it: a key such as HIERARCH, or one that differs from an "
+             "earlier key only in what cfitsio ignores, replaces that card and the earlier entry is lost on serialisation" % (m, f.render(name_arg)[:40]))
+    if n == 0:
+        raise core.AnalysisBroken("FS-9: write_fits_core writes no keyword")
